@@ -690,7 +690,9 @@ def run_delivery(ctx, zf, vecs=None, only=None, started=None):
     if vecs is None:
         need = ('Attach', 'CompileModel', 'CompileObservation', 'Recompile', 'Update')
         if started is not None:
-            res = settle_spec(ctx, 'delivery', started['delivery'].result(), need)
+            res = started['delivery'].result()
+            # Init -> Attach -> CompileModel -> CompileObservation -> Update, and one Recompile self-loop per exported fitted set
+            res = settle_spec(ctx, 'delivery', res, need, chain=(5, len(res.tagged('DLV'))))
         else:
             res = ctx.check_spec('delivery', 'MC_PriorDelivery', 'MC_PriorDelivery_%s.cfg' % ctx.tier, need_actions=need, env=env, workers=1)
         ctx.expect_refuted('delivery-by-mode-refuted', 'MC_PriorDelivery', 'MC_PriorDelivery_bymode.cfg', 'DeliveryInv', env=tiny, workers=4)
@@ -1206,8 +1208,10 @@ def start_background(ctx, zf):
     pool = ThreadPoolExecutor(max_workers=4)
     jobs = {
         # the design-level runs nothing waits for at once (the vectors need the export only, which run() does itself)
-        'exhaustive': lambda: run_tlc('MC_Priors', 'MC_Priors_%s.cfg' % ctx.tier, env=env, workers=4, coverage=True),
-        'delivery': lambda: run_tlc('MC_PriorDelivery', 'MC_PriorDelivery_%s.cfg' % ctx.tier, env=env, workers=1, coverage=True),
+        # (quick: without TLC's action coverage, which costs a third of these short runs; that every action was taken is read
+        # from the shape of the state graph instead, see settle_spec)
+        'exhaustive': lambda: run_tlc('MC_Priors', 'MC_Priors_%s.cfg' % ctx.tier, env=env, workers=4, coverage=not q),
+        'delivery': lambda: run_tlc('MC_PriorDelivery', 'MC_PriorDelivery_%s.cfg' % ctx.tier, env=env, workers=1, coverage=not q),
         'history-walks': lambda: run_tlc('MC_PriorHistory', 'SIM_PriorHistory.cfg' if q else 'SIM_PriorHistory_thorough.cfg', env=env, workers=1,
                                          simulate='num=%d' % (120 if q else 1200), depth=20, seed=ctx.seed + 17),
         'object-walks': lambda: run_tlc('MC_PriorObject', 'SIM_PriorObject.cfg' if q else 'SIM_PriorObject_thorough.cfg', env=env, workers=1,
@@ -1235,14 +1239,21 @@ REFUTED = {'history-default-cache-refuted': 'HistoryInv', 'history-mode-as-typed
            'keywords-coupled-refuted': 'LinArgsInv', 'unordered-bounds-refuted': 'MonotoneInv'}
 
 
-def settle_spec(ctx, label, res, need_actions=()):
-    """What ctx.check_spec concludes from a design-level run, for a run that was started in the background."""
+def settle_spec(ctx, label, res, need_actions=(), chain=None):
+    """What ctx.check_spec concludes from a design-level run, for a run that was started in the background.  chain = (depth,
+    self_loops): for a run without action coverage -- the model is a chain of `depth` phases every start state walks through,
+    each phase one action, plus `self_loops` transitions that change nothing; then depth and counts show that every action
+    was taken."""
     ctx.add_tlc(label, res)
     if res.violated:
         raise Machinery('spec run %s violates %s\n%s' % (label, res.violated, res.error_trace))
-    for a in need_actions:
-        if res.action_cov.get(a, (0, 0))[1] == 0:
-            raise Machinery('vacuous: action %s never taken in %s' % (a, label))
+    if res.action_cov:
+        for a in need_actions:
+            if res.action_cov.get(a, (0, 0))[1] == 0:
+                raise Machinery('vacuous: action %s never taken in %s' % (a, label))
+    elif chain is None or res.depth != chain[0] or res.distinct % chain[0] or res.generated - res.distinct != chain[1]:
+        raise Machinery('vacuous: %s has depth %d, %d distinct / %d generated states (expected a chain %r)'
+                        % (label, res.depth, res.distinct, res.generated, chain))
     if res.distinct == 0:
         raise Machinery('TLC reported 0 states for %s' % label)
     return res
@@ -1610,7 +1621,7 @@ def run(ctx):
         ctx.add_sample(dict(vector=vecs[len(vecs) // 2]))
         import time
         t1 = time.time()
-        settle_spec(ctx, 'exhaustive', started['exhaustive'].result(), ('Eval',))
+        settle_spec(ctx, 'exhaustive', started['exhaustive'].result(), ('Eval',), chain=(2, 0))          # Init -> Eval
         ctx.exhaustive = True
         collect_background(ctx, started)
         run_history(ctx, zf, started)
